@@ -3,6 +3,7 @@ import PyttbModel.Alg.GcpFg
 import PyttbModel.Generated.Handles
 open Lean Pyttb Pyttb.Codec
 namespace Pyttb.Driver
+namespace C12
 
 /-- doubles cross the pipe as the decimal string of their 64-bit pattern -/
 def asFloatBits (j : Json) : R Float := do
@@ -12,6 +13,18 @@ def asFloatBits (j : Json) : R Float := do
   | none => .error s!"bad float bits {s}"
 
 def floatBitsJ (v : Float) : Json := Json.str (toString v.toBits.toNat)
+
+/-- magnitude of the terms that are added / subtracted while evaluating the expression
+(an upper bound for the size of intermediate values): the tolerance of the double
+comparison with the Python handle is taken relative to it, so that cancellation does
+not produce false alarms -/
+def magF (x p m : Float) : Expr → Float
+  | .add a b | .sub a b => magF x p m a + magF x p m b
+  | .mul a b => magF x p m a * magF x p m b
+  | .div a b => magF x p m a / Float.abs (b.evalF x p m)
+  | .neg a | .abs a => magF x p m a
+  | .powNat a n => Float.pow (magF x p m a) (Float.ofNat n)
+  | e => Float.abs (e.evalF x p m)
 
 /-- polynomial stand-in (loss, gradient) pairs, exact over the rationals; the harness
 passes the same functions to the real `evaluate` / `estimate` as Python callables -/
@@ -52,6 +65,9 @@ def nameOf (e : Expr) : Json :=
   | some p => Json.str p.1
   | none => Json.null
 
+end C12
+open C12
+
 def ops12 : List (String × Op) := [
   -- generated handle expression (or its symbolic derivative) evaluated in doubles
   ("gcp_expr", fun j => do
@@ -63,7 +79,8 @@ def ops12 : List (String × Op) := [
     | some e =>
       let e := if deriv then e.D else e
       .ok (listJ (fun (pt : List Float) =>
-        floatBitsJ (e.evalF (pt.getD 0 0) (pt.getD 1 0) (pt.getD 2 0))) pts)),
+        Json.arr #[floatBitsJ (e.evalF (pt.getD 0 0) (pt.getD 1 0) (pt.getD 2 0)),
+                   floatBitsJ (magF (pt.getD 0 0) (pt.getD 1 0) (pt.getD 2 0) e)]) pts)),
   ("gcp_table", fun _ =>
     .ok (listJ (fun (o : Objective) =>
       let row := Handles.setupTable o
